@@ -15,6 +15,11 @@ Brief ==
      netQ |-> {ToString(<<m.id, m.kind, "up", m.useq, m.ufrag, m.last, m.units, "ack", m.dseq, m.dfrag>>) : m \in netQ},
      netA |-> {ToString(<<a.id, a.nm, "dn", a.dseq, a.dfrag, a.last, a.units, "ack", a.useq, a.ufrag, a.illegal>>) : a \in netA},
      budgets |-> <<loss, dup, tos>>]
-\* reachability probes (expected to be VIOLATED: they show the interesting states are reached)
-NotBothDelivered == ~(Len(tunS) >= 1 /\ Len(tunC) >= 1)
+\* reachability probes (expected to be VIOLATED: they show that the states the invariants speak about are reached,
+\* i.e. that the invariants do not hold vacuously)
+NotBothDelivered == ~(Len(tunS) >= 1 /\ Len(tunC) >= 1)                    \* C01/C02: packets do get through both ways
+ProbeNoSeen == lastact # "SrvRecvSeen"                                       \* C16: a recently seen query is re-delivered
+ProbeNeverHeldTwo == ~(S.q.id # 0 /\ S.qrs.id # 0)                            \* C14: two queries held at once
+ProbeNoSecondFragment == \A a \in netA : ~(Len(a.units) > 0 /\ a.dfrag > 0)   \* C15: multi-fragment downstream packets
+ProbeNoDuplicateAnswer == \A a \in netA, b \in netA : (a.nm = b.nm /\ a.id # b.id) => Len(a.units) = 0   \* C14: "answer both"
 =============================================================================
